@@ -1,6 +1,7 @@
 package main
 
 import (
+	"go/constant"
 	"fmt"
 	"go/token"
 	"go/types"
@@ -165,12 +166,21 @@ func ruleF2I(c *Ctx) {
 					if cvt, ok := bo.Y.(*ssa.Convert); ok {
 						_, yConst = cvt.X.(*ssa.Const)
 					}
+					// the bound itself matters at the edge of the 64-bit range: float64(MaxInt64) is 2^63, which does
+					// not fit, so what passes an upper guard must be < 2^63 (x >= K with K <= 2^63, or x > K with
+					// K < 2^63), and what passes a lower guard must be >= -2^63
+					kv, kvKnown := constFloat(bo.Y)
+					const lim = 9223372036854775808.0
 					switch {
 					case bo.Op == token.NEQ && srcKey(bo.Y, 0) == k:
 						nan[k] = append(nan[k], guard{b, 1}) // false edge: not NaN
-					case yConst && (bo.Op == token.GEQ || bo.Op == token.GTR):
+					case yConst && bo.Op == token.GEQ && (!kvKnown || kv <= lim):
 						upper[k] = append(upper[k], guard{b, 1})
-					case yConst && (bo.Op == token.LEQ || bo.Op == token.LSS):
+					case yConst && bo.Op == token.GTR && (!kvKnown || kv < lim):
+						upper[k] = append(upper[k], guard{b, 1})
+					case yConst && bo.Op == token.LEQ && (!kvKnown || kv >= -lim-1):
+						lower[k] = append(lower[k], guard{b, 1})
+					case yConst && bo.Op == token.LSS && (!kvKnown || kv >= -lim):
 						lower[k] = append(lower[k], guard{b, 1})
 					}
 				}
@@ -665,4 +675,21 @@ func f2iSink(cv *ssa.Convert) string {
 		v = next
 	}
 	return "deep"
+}
+
+// constFloat: the float64 value of a constant operand (also of an integer constant converted to a float type).
+func constFloat(v ssa.Value) (float64, bool) {
+	if cv, ok := v.(*ssa.Convert); ok {
+		v = cv.X
+	}
+	k, ok := v.(*ssa.Const)
+	if !ok || k.Value == nil {
+		return 0, false
+	}
+	f := constant.ToFloat(k.Value)
+	if f.Kind() != constant.Float {
+		return 0, false
+	}
+	x, _ := constant.Float64Val(f)
+	return x, true
 }
